@@ -7,7 +7,7 @@
 (*                                                                         *)
 (* A trace is [saves, fixed, mon, svals, gui, ev]; events                   *)
 (*  [p |-> "W", op, key]            one writer operation on the channel      *)
-(*  [p |-> "W", op |-> "done", ok]  tdgl.solve returned (1) or raised (0)    *)
+(*  [p |-> "W", op |-> "done", ok]  tdgl.solve ended as set up (1) or not (0) *)
 (*  [p |-> "R", op |-> "open", ok]  h5py.File(..., swmr=True) succeeded?     *)
 (*  [p |-> "R", op |-> "device", ok]                                         *)
 (*  [p |-> "R", op |-> "exists", ok]   os.path.exists(channel)               *)
@@ -38,7 +38,7 @@ TWriter ==
 
 TWriterDone ==
     /\ Ev.p = "W" /\ Ev.op = "done"
-    /\ WDone /\ (Ev.ok = 1 <=> werr = "none")
+    /\ WDone /\ Ev.ok = 1          \* tdgl.solve ended the way the run was set up to end (returned, or raised the injected error)
     /\ UNCHANGED vars
 
 TOpen ==
